@@ -5,5 +5,6 @@ CONSTANTS
   GraphIdempotent = TRUE
   CacheTransparent = TRUE
   SerialsMemoised = TRUE
+  ScopeFixed = TRUE
 INVARIANTS Emit
 CHECK_DEADLOCK FALSE
